@@ -98,6 +98,16 @@ def generate(rng, tier):
             extra = rng.choice([0, 0, 1, 3, 30, 200]) if dm else 0
             mm = m * 10 ** (extra + 1) + dm
             T(_spell(rng, mm, e - extra - 1))
+    # the same midpoints with a non-zero digit pushed out to EXACTLY the capacity of the big-decimal digit store (800) and its neighbours: the
+    # sticky "truncated" flag is then produced by the shift routines (not by the reader), for magnitudes above and below one
+    for _ in range(150 if quick else 20000):
+        m, e = _halfway(rng)
+        nd = len(str(m))
+        for N in (798, 799, 800, 801, 802, 810):
+            if nd + 1 < N:
+                extra = N - nd - 1
+                for dm in (-1, 1):
+                    T(_spell(rng, m * 10 ** (extra + 1) + dm, e - extra - 1))
     # overflow / underflow boundaries spelled with every mantissa width 1..19 (the guards of the fast paths depend on the
     # digit count): largest finite, first decimal that rounds to infinity, and around the smallest subnormal
     from fractions import Fraction as _F
